@@ -22,47 +22,39 @@ func like(condition, data any) (bool, error) {
 	switch cn := condition.(type) {
 	case string:
 		if d, ok := data.(string); ok {
-			hasPrefix := false
-			hasSuffix := false
-			startAndEnd := []string{}
-
-			if len(cn) >= 2 {
-				if cn[0] == '%' {
-					hasPrefix = true
-					cn = strings.TrimPrefix(cn, "%")
-				}
-				if cn[len(cn)-1] == '%' {
-					hasSuffix = true
-					cn = strings.TrimSuffix(cn, "%")
-				}
-				if !hasPrefix && !hasSuffix {
-					startAndEnd = strings.Split(cn, "%")
-				}
-			}
-
-			switch {
-			case hasPrefix && hasSuffix:
-				return strings.Contains(d, cn), nil
-
-			case hasPrefix:
-				// if the condition has a prefix string `%`, this means that we are matching
-				// the condition as being a suffix to the data.
-				return strings.HasSuffix(d, cn), nil
-
-			case hasSuffix:
-				// if the condition has a suffix string `%`, this means that we are matching
-				// the condition as being a prefix to the data.
-				return strings.HasPrefix(d, cn), nil
-
-			case len(startAndEnd) == 2:
-				return strings.HasPrefix(d, startAndEnd[0]) && strings.HasSuffix(d, startAndEnd[1]), nil
-
-			default:
-				return cn == d, nil
-			}
+			return MatchLikePattern(cn, d), nil
 		}
 		return false, nil
 	default:
 		return false, client.NewErrUnhandledType("condition", cn)
 	}
+}
+
+// MatchLikePattern returns true if the given value matches the given LIKE pattern, in which every
+// '%' character stands for any (possibly empty) sequence of characters.
+func MatchLikePattern(pattern, value string) bool {
+	parts := strings.Split(pattern, "%")
+	if len(parts) == 1 {
+		return pattern == value
+	}
+
+	first, last := parts[0], parts[len(parts)-1]
+	if !strings.HasPrefix(value, first) {
+		return false
+	}
+	value = value[len(first):]
+	// the suffix must not overlap with the prefix
+	if !strings.HasSuffix(value, last) {
+		return false
+	}
+	value = value[:len(value)-len(last)]
+
+	for _, part := range parts[1 : len(parts)-1] {
+		i := strings.Index(value, part)
+		if i < 0 {
+			return false
+		}
+		value = value[i+len(part):]
+	}
+	return true
 }
